@@ -30,7 +30,8 @@ IsPrim(v)  == v.k = "p"
 \* [k |-> "alias", to, tgt]: a setting of the SOURCE of a merge that is exactly one reference ${to} to a
 \* sub-config tgt of the same source (variable expansion on): it converts to a config like the target does
 Alias(to, tgt) == [k |-> "alias", to |-> to, tgt |-> tgt]
-ToCfgOk(v) == v.k \in {"n", "nil", "alias"}
+\* (a reference converts to a config exactly when what it refers to does: ${zz} with zz a primitive does not)
+ToCfgOk(v) == v.k \in {"n", "nil"} \/ (v.k = "alias" /\ v.tgt.k \in {"n", "nil"})
 AsCfg(v)   == IF v.k = "nil" THEN Empty ELSE IF v.k = "alias" THEN v.tgt ELSE v
 
 Max(x, y) == IF x > y THEN x ELSE y
